@@ -228,7 +228,8 @@ fn gen_c04(r: &mut Prng, i: u64, _t: Tier) -> Plan {
         for side in 0..2 {
             if r.chance(2, 3) {
                 let extra = 17 + r.below(30);
-                let mut w: Vec<WOp> = (0..extra).map(|_| WOp::Write(1 + r.below(24))).collect();
+                // every size pattern, zero-length writes included
+                let mut w: Vec<WOp> = (0..extra).map(|_| if r.chance(1, 12) { WOp::Write(0) } else { WOp::Write(1 + r.below(24)) }).collect();
                 w.push(WOp::Shutdown);
                 s.sides[side].w = w;
             }
@@ -470,6 +471,10 @@ fn gen_c11(r: &mut Prng, _i: u64, _t: Tier) -> Plan {
             }
             if r.chance(1, 3) {
                 it.len = r.below(5);
+            }
+            // datagram flow ids may share the stream flow-id space (PROTOCOL.md): use ids of live streams
+            if r.chance(1, 4) {
+                it.flow = ((1 + r.below(2) as u32) << 28) + 1 + r.below(3) as u32;
             }
         }
         p.dg_tx.push(tx);
@@ -780,6 +785,175 @@ pub fn c07() -> Check {
         vec!["connect-collision-with-live-or-pending-id", "open-succeeded-after-retry", "flow-id-rejected"],
     )
 }
+
+// ------------------------------------------------------------------ C08
+
+const CHAOS: Prof = Prof { max_writes: 10, max_size: 24, p_empty: 50, p_vectored: 200, p_flush: 50, p_yield: 250, p_shutdown: 600, p_write_after_shutdown: 100, p_drop_mid: 100, p_read_eof: 650, p_fill: 300, p_reader_absent: 150, hold: 350, max_buf: 32 };
+fn gen_c08_workload(r: &mut Prng) -> Plan {
+    let mut p = base_plan(r);
+    for e in &mut p.eps {
+        e.stream_buf = *r.pick(&[1usize, 2, 16]);
+    }
+    for _ in 0..(1 + r.below(3)) {
+        p.streams.push(gen_stream(r, &CHAOS));
+    }
+    // pending multiplexor-level calls on both sides: accept, get_datagram, bind request, bind responder
+    for ep in 0..2 {
+        if !r.chance(1, 5) {
+            p.dg_rx.push(DgRx { ep, pace: vec![r.below(3)], take: None });
+        }
+        if r.chance(1, 2) {
+            let mut tx = gen_dgtx(r, ep, 5, 0);
+            for it in &mut tx.items {
+                it.hlen = it.hlen.min(255);
+            }
+            p.dg_tx.push(tx);
+        }
+    }
+    if r.chance(2, 3) {
+        gen_binds(r, &mut p, 3);
+    }
+    // both applications keep accepting (possibly slowly): a peer whose connection task is wedged
+    // behind an application that never accepts cannot answer Close and is outside C08's premise
+    p.accept_pace = r.below(4);
+    p
+}
+fn gen_end_cause(r: &mut Prng) -> FaultKind {
+    match r.below(10) {
+        0 => FaultKind::PeerClose { to: r.below(2) },
+        1 => FaultKind::Cut { from: r.below(2), sink_err: false, src: 1 + r.below(2) as u8, drop_inflight: r.chance(1, 2) },
+        2 => FaultKind::Cut { from: r.below(2), sink_err: true, src: 1 + r.below(2) as u8, drop_inflight: r.chance(1, 2) },
+        3 => FaultKind::Cut { from: r.below(2), sink_err: true, src: 0, drop_inflight: false },
+        4 => FaultKind::Cut { from: r.below(2), sink_err: true, src: 3, drop_inflight: r.chance(1, 2) },
+        5 => FaultKind::CutBoth { src: 1 + r.below(3) as u8, drop_inflight: r.chance(1, 2) },
+        6 => FaultKind::Garbage { to: r.below(2), kind: r.below(6) as u8 },
+        _ => FaultKind::DropMux { ep: r.below(2) },
+    }
+}
+fn gen_c08(r: &mut Prng, _i: u64, _t: Tier) -> Plan {
+    let mut p = gen_c08_workload(r);
+    let kind = gen_end_cause(r);
+    let span = *r.pick(&[12usize, 40, 120, 400]);
+    let at = r.below(span) as u64;
+    p.faults.push(Fault { at, kind });
+    p
+}
+const C08_STRIDE: u64 = 384;
+/// crash-point sweep: plan, schedule seed and end cause are fixed per group of C08_STRIDE indices,
+/// the trigger step walks over every scheduling round of that execution
+fn gen_c08_sweep(r: &mut Prng, i: u64, _t: Tier) -> Plan {
+    let mut p = gen_c08_workload(r);
+    // keep the recorded execution short enough for the sweep to cover all of it
+    p.streams.truncate(2);
+    for s in &mut p.streams {
+        for sd in &mut s.sides {
+            sd.w.truncate(6);
+        }
+    }
+    p.link.latency_ms = 0;
+    let kind = gen_end_cause(r);
+    p.faults.push(Fault { at: i % C08_STRIDE, kind });
+    p
+}
+fn x_c08(r: &DuoRun, wm: &WireModel, ei: &EndInfo, o: &mut Outcome) {
+    let led = r.led.borrow();
+    let l = r.link.lock().unwrap();
+    // ---- what was pending at the instant of the end cause
+    if let Some(fs) = ei.first_fault_seq {
+        let mut pend = 0u64;
+        for s in &led.streams {
+            for sd in &s.sides {
+                if sd.writes.iter().any(|w| w.inv < fs && w.ret.is_none_or(|t| t > fs)) {
+                    pend += 1;
+                    o.probe("end-while-writer-parked", 1);
+                }
+                if sd.reads.is_empty() && sd.got_stream.is_some_and(|g| g < fs) || sd.in_read.is_some_and(|q| q < fs) {
+                    o.probe("end-while-reader-pending", 1);
+                }
+            }
+            if s.open_inv.is_some_and(|q| q < fs) && s.open_ret.as_ref().is_none_or(|x| x.0 > fs) {
+                pend += 1;
+                o.probe("end-while-open-pending", 1);
+            }
+        }
+        for (k, b) in led.bind.reqs.iter().enumerate() {
+            if b.0 > 0 && b.0 < fs && led.bind.results[k].as_ref().is_none_or(|x| x.0 > fs) {
+                pend += 1;
+                o.probe("end-while-bind-pending", 1);
+            }
+        }
+        o.probe("end-with-pending-operations", (pend > 0) as u64);
+    }
+    // ---- local drop with a healthy transport: everything queued before the drop is still transmitted
+    let only_drop = r.plan.faults.len() == 1 && matches!(r.plan.faults[0].kind, FaultKind::DropMux { .. });
+    if !only_drop {
+        return;
+    }
+    for x in 0..2 {
+        let Some(d) = led.mux_dropped[x] else { continue };
+        let Some(close) = wm.close_sent[x] else {
+            o.violate("C08:no-close-after-drop", format!("endpoint {x}: the multiplexor was dropped (seq {d}) on a healthy transport but no Close was ever sent"));
+            continue;
+        };
+        // the peer may have ended the connection first (it cannot here: only the drop is injected)
+        for (t, s) in led.streams.iter().enumerate() {
+            let opener = r.plan.streams[t].opener.min(1);
+            for side in 0..2 {
+                let ep = if side == 0 { opener } else { 1 - opener };
+                if ep != x {
+                    continue;
+                }
+                let Some(&ix) = wm.by_tag.get(&t) else { continue };
+                let id = wm.insts[ix].id;
+                let c0 = wm.insts[ix].connect_seq;
+                let sd = &s.sides[side];
+                let need: u64 = sd.writes.iter().filter(|w| w.ret.is_some_and(|q| q < d)).filter_map(|w| w.res.as_ref().and_then(|r| r.as_ref().ok())).map(|k| *k as u64).sum();
+                let sent: u64 = l.evs.iter().filter(|e| e.stage == Stage::Sent && e.from == x && e.seq < close && e.seq >= c0).filter_map(|e| match &*e.w { Wire::Frame(RFrame::Push { id: i, data }) if *i == id => Some(data.len() as u64), _ => None }).sum();
+                let was_reset = wm.insts[ix].reset_consumed[x].is_some_and(|q| q < close);
+                if sent < need && !was_reset {
+                    o.violate("C08:flush-lost-data", format!("endpoint {x} dropped its multiplexor (seq {d}) after writes on stream {t} had accepted {need} bytes, but only {sent} bytes were transmitted before Close"));
+                }
+                if sd.shutdown_ret.is_some_and(|q| q < d) && !was_reset {
+                    let fin = l.evs.iter().any(|e| e.stage == Stage::Sent && e.from == x && e.seq < close && e.seq >= c0 && matches!(&*e.w, Wire::Frame(RFrame::Finish { id: i }) if *i == id));
+                    if !fin {
+                        o.violate("C08:flush-lost-finish", format!("endpoint {x} dropped its multiplexor after shutdown of stream {t} had completed, but no Finish was transmitted before Close"));
+                    }
+                }
+                if sd.aborted && sd.dropped.is_some_and(|q| q < d) && !was_reset && wm.insts[ix].est_sent.is_some() {
+                    let rst = l.evs.iter().any(|e| e.stage == Stage::Sent && e.from == x && e.seq < close && e.seq >= c0 && matches!(&*e.w, Wire::Frame(RFrame::Reset { id: i }) if *i == id));
+                    // the abort notification is processed by the connection task; it is queued before the drop signal
+                    if !rst && wm.insts[ix].finish_sent[x].is_none() {
+                        o.violate("C08:flush-lost-reset", format!("endpoint {x} dropped its multiplexor after stream {t} had been aborted, but no Reset was transmitted before Close"));
+                    }
+                }
+            }
+        }
+        let need = led.dg.sent[x].iter().filter(|s| s.0 < d && s.2.is_ok()).count();
+        let sent = l.evs.iter().filter(|e| e.stage == Stage::Sent && e.from == x && e.seq < close && matches!(&*e.w, Wire::Frame(RFrame::Datagram { .. }))).count();
+        if sent < need {
+            o.violate("C08:flush-lost-datagram", format!("endpoint {x} dropped its multiplexor after {need} datagrams had been accepted, but only {sent} were transmitted before Close"));
+        }
+        o.probe("drop-flush-checked", 1);
+        if need > 0 || led.streams.iter().any(|s| s.sides.iter().any(|sd| sd.accepted > 0)) {
+            o.probe("drop-with-queued-frames", 1);
+        }
+    }
+}
+fn nt_c08(r: &DuoRun, _wm: &WireModel, ei: &EndInfo) -> bool {
+    ei.any_fault && (ei.judged[0] || ei.judged[1]) && r.steps > 20
+}
+pub fn c08() -> Check {
+    let sweep = DuoFamily { name: "sweep", quick: 40 * C08_STRIDE, thorough: 2000 * C08_STRIDE, generate: gen_c08_sweep, cfg: OracleCfg::default(), extra: Some(x_c08), nontrivial: nt_c08, rule: "crash-point sweep: for each group, one plan + one schedule seed + one end cause are fixed and the trigger walks over every scheduling round 0..383 of that execution (rounds beyond the end of the execution leave it fault-free).", exhaustive_thorough: false, stride: C08_STRIDE };
+    duo_check(
+        "C08",
+        "fault_enumeration",
+        vec![
+            fam("chaos", 300_000, 3_000_000, gen_c08, OracleCfg::default(), Some(x_c08), nt_c08, "random close/abort workload on 1-3 streams with pending accept / get_datagram / request_bind / next_bind_request / open / parked writers and readers; at a seeded scheduling round one end cause fires: forged peer Close, cut of one direction (source error / EOF / silent, sink failing or not, in-flight dropped or delivered), both directions cut, invalid frame (6 kinds), or the local Multiplexor handle dropped. Judged per endpoint whose connection has ended: its task returned and no call is pending at quiescence; after a local drop on a healthy link every frame whose producing call returned before the drop is on the wire before Close, per producer in order. Non-trivial: the end cause fired after >20 steps and reached an endpoint."),
+            Box::new(sweep),
+        ],
+        vec!["end-with-pending-operations", "end-while-writer-parked", "end-while-open-pending", "end-while-bind-pending", "drop-with-queued-frames", "fault:cut", "fault:peer-close", "fault:garbage", "fault:drop-mux"],
+    )
+}
 use crate::link::{Stage, Wire};
 use crate::refcodec::RFrame;
 
@@ -791,8 +965,95 @@ pub fn lookup(id: &str) -> Option<Check> {
         "C05" => Some(c05()),
         "C06" => Some(c06()),
         "C07" => Some(c07()),
+        "C08" => Some(c08()),
+        "C10" => Some(c10()),
         "C11" => Some(c11()),
         "C15" => Some(c15()),
         _ => None,
+    }
+}
+
+// ================================================================== raw-peer families (C10, C13, C16)
+
+use crate::solo::*;
+
+pub struct C10Family {
+    pub name: &'static str,
+    pub quick: u64,
+    pub thorough: u64,
+    /// enumerate all single frames and ordered pairs by index
+    pub enumerate: bool,
+}
+fn c10_base(r: &mut Prng) -> C10Plan {
+    C10Plan {
+        ep: EpCfg { rwnd: *r.pick(&[1u32, 2, 3, 4]), threshold: *r.pick(&[1u32, 2, 4]), dgram_buf: *r.pick(&[1usize, 8]), stream_buf: 16, bind_buf: *r.pick(&[0usize, 0, 8]), retries: 3, ids: vec![] },
+        link: LinkCfg { window: *r.pick(&[2usize, 8, 1 << 20]), latency_ms: 0, drop_after_close: r.chance(1, 2) },
+        weights: gen_weights(r),
+        peer_rwnd: *r.pick(&[1u32, 2, 4, 16]),
+        seqn: vec![],
+        bystander_bytes: 20 + r.below(60),
+        garbage: if r.chance(1, 5) { Some(r.below(6) as u8) } else { None },
+    }
+}
+impl Family for C10Family {
+    fn name(&self) -> &'static str {
+        self.name
+    }
+    fn runs(&self, tier: Tier) -> u64 {
+        if tier == Tier::Quick { self.quick } else { self.thorough }
+    }
+    fn generate(&self, batch_seed: u64, index: u64, _tier: Tier) -> (Value, u64) {
+        let seed = simcore::prng::mix(batch_seed, self.name, index);
+        let mut r = Prng::new(seed);
+        let mut p = c10_base(&mut r);
+        let alpha = (N_OPS as u64) * (N_IDS as u64);
+        if self.enumerate {
+            // index -> single frame (first `alpha` indices) or ordered pair, cyclically
+            let k = index % (alpha + alpha * alpha);
+            let mk = |x: u64, r: &mut Prng| FOp { op: (x / N_IDS as u64) as u8, id: (x % N_IDS as u64) as u8, yields: r.below(4) };
+            if k < alpha {
+                p.seqn.push(mk(k, &mut r));
+            } else {
+                let k = k - alpha;
+                p.seqn.push(mk(k / alpha, &mut r));
+                p.seqn.push(mk(k % alpha, &mut r));
+            }
+            p.garbage = None;
+        } else {
+            let n = 3 + r.below(12);
+            for _ in 0..n {
+                // overrun needs runs of Push on the victim: bias towards them
+                let (op, id) = if r.chance(1, 4) { (5, 2) } else { (r.below(N_OPS as usize) as u8, r.below(N_IDS as usize) as u8) };
+                p.seqn.push(FOp { op, id, yields: r.below(5) });
+            }
+        }
+        (serde_json::to_value(p).expect("plan"), seed)
+    }
+    fn exec(&self, plan: &Value, sched: &Sched, record: bool) -> Outcome {
+        let Ok(plan) = serde_json::from_value::<C10Plan>(plan.clone()) else { return Outcome::default() };
+        run_c10(&plan, sched, record)
+    }
+    fn rule(&self) -> &'static str {
+        if self.enumerate {
+            "one real endpoint, a raw peer speaking the reference codec; flows in every slot state are set up by conforming exchanges (established bystander with checked traffic both ways, established victim that is never read, endpoint-requested established flow, pending Connect, pending Bind, two unknown ids, id 0); then ALL single frames and ALL ordered pairs over {Connect, Ack(0/1/max), Reset, Finish, Push(0/1/300 B), Bind(1/3), Datagram} x those ids are enumerated by run index, under seeded schedules; followed by a liveness probe (fresh Connect acknowledged, bystander moves more data)."
+        } else {
+            "random sequences of 3-14 such frames (biased to runs of Push on the never-read victim: window overrun), optionally ended by a message that is not a valid frame (6 kinds): then the task must return an invalid-frame error and every pending call must resolve. Non-trivial: the fault phase completed."
+        }
+    }
+    fn exhaustive(&self, tier: Tier) -> bool {
+        self.enumerate && self.runs(tier) >= (N_OPS as u64 * N_IDS as u64) * (1 + N_OPS as u64 * N_IDS as u64)
+    }
+}
+pub fn c10() -> Check {
+    let c = c02();
+    Check {
+        property: "C10",
+        engine: "muxsim",
+        level: "fault_enumeration",
+        families: vec![Box::new(C10Family { name: "pairs", quick: 9312 * 4, thorough: 9312 * 200, enumerate: true }), Box::new(C10Family { name: "sequences", quick: 150_000, thorough: 3_000_000, enumerate: false })],
+        required_probes: vec!["window-overrun-by-peer", "reset-required-and-sent", "liveness-probe-run", "garbage-ended-connection", "undetermined-reaction-recorded"],
+        assumptions: vec!["only reactions PROTOCOL.md or the statement fix are judged (Reset for Ack/Finish/Push on unknown flows, never Reset for Reset, Reset of only the offending flow on overrun, Reset for Connect with id 0 / in use, Reset for Bind when disabled); reactions left open taint that flow id and are recorded, not judged", "the in-memory link implements tokio-tungstenite's observable contract"],
+        real: c.real,
+        stub: vec!["the peer (scripted raw peer encoding with the reference codec)", "WebSocket transport (SimWs)", "applications (scripted)", "task scheduler (seeded executor)"],
     }
 }
